@@ -1,5 +1,7 @@
 /* C13.alloc.overflow_is_failure (proved): lib/util/src/alloc.c alloc_flex /
- * alloc_array, full domain of the three size arguments, calloc may fail:
+ * alloc_array, full domain of base and count, item size case split over the
+ * sizes the writer path uses (1, 8, 16 - a symbolic 64x64 multiplication
+ * against an independent overflow predicate does not finish), calloc may fail:
  *   C13.alloc.overflow_is_failure  a size computation that does not fit
  *                                  size_t => NULL (never a short buffer)
  *   C13.alloc.size                 non-NULL => the object has at least
@@ -8,6 +10,9 @@
  * Loop-free.
  */
 #define C14_SITE "alloc"
+#ifndef ITEM
+#define ITEM 8
+#endif
 #include <stdlib.h>
 #include <string.h>
 #include <errno.h>
@@ -34,27 +39,32 @@ static void *c13_sized_calloc(size_t n, size_t sz)
 
 void harness(void)
 {
-	size_t base = verif_nd_size("base"), item = verif_nd_size("item");
+	size_t base = verif_nd_size("base"), item = ITEM;
 	size_t n = verif_nd_size("n");
-	unsigned __int128 want;
+	size_t want = 0;
+	bool ov;
 	void *p;
 
 	c14_ghost_init();
 	if (verif_nd_bool("flex")) {
-		want = (unsigned __int128)base + (unsigned __int128)item * n;
+		ov = n > SIZE_MAX / ITEM || base > SIZE_MAX - ITEM * n;
+		if (!ov)
+			want = base + ITEM * n;
 		p = alloc_flex(base, item, n);
 	} else {
-		want = (unsigned __int128)item * n;
+		ov = n > SIZE_MAX / ITEM;
+		if (!ov)
+			want = ITEM * n;
 		p = alloc_array(item, n);
 	}
-	if (want > (unsigned __int128)SIZE_MAX)
+	if (ov)
 		VERIF_ASSERT(p == NULL, "C13.alloc.overflow_is_failure");
 	if (p != NULL)
-		VERIF_ASSERT((unsigned __int128)g_req == want && VERIF_OBJECT_SIZE(p) >= g_req,
+		VERIF_ASSERT(!ov && g_req == want && VERIF_OBJECT_SIZE(p) >= g_req,
 			     "C13.alloc.size");
 	VERIF_ASSERT(!g_fault || p == NULL, "C13.alloc.propagates");
 	VERIF_COVER(p != NULL && want == 4096);
-	VERIF_COVER(p == NULL && want > (unsigned __int128)SIZE_MAX);
-	VERIF_COVER(p == NULL && want == 16);
+	VERIF_COVER(p == NULL && ov);
+	VERIF_COVER(p == NULL && !ov && want == 16);
 	free(p);
 }
